@@ -261,7 +261,7 @@ def history(ctx, i, jobs, layout=None):
     seed = r.getrandbits(30)
     name = "%s%d" % ("F" if layout is None else "L", i)
     case = {"i": i, "k": k, "n": n, "size": size, "max_segment_size": mss, "servers": nservers, "seed": seed}
-    with G.Grid(num_servers=nservers, k=k, n=n, happy=1, max_segment_size=mss, seed=seed, timeout=30) as g:
+    with G.Grid(num_servers=nservers, k=k, n=n, happy=1, max_segment_size=mss, seed=seed, timeout=180) as g:
         other = g.run(g.upload(bytes(r.getrandbits(8) for _ in range(size)), convergence=b"c45"))
         other_raws = [g.read_share(s) for s in g.find_shares(other)]
         cap, shares, raws0, gen = C.upload_file(g, data, conv=b"c45")
@@ -294,7 +294,7 @@ def history(ctx, i, jobs, layout=None):
 
         # --- check without verification: the servers' word
         node = C.fresh_node(g, cap)
-        out = g.run(lambda: node.check(Monitor(), verify=False), outcome=True, timeout=20)
+        out = g.run(lambda: node.check(Monitor(), verify=False), outcome=True, timeout=90)
         present = sorted(set(sh for (_s, sh) in before))
         if out.status != "ok":
             ctx.oracle_fail("check-without-verify-failed", "check(verify=False) ended with %s" % (out.error or out.status), case=case)
@@ -313,7 +313,7 @@ def history(ctx, i, jobs, layout=None):
 
         # --- check with verification
         node = C.fresh_node(g, cap)
-        out = g.run(lambda: node.check(Monitor(), verify=True), outcome=True, timeout=20)
+        out = g.run(lambda: node.check(Monitor(), verify=True), outcome=True, timeout=90)
         good_numbers = sorted(set(sh for (srv, sh), ok in valid.items() if ok))
         if out.status != "ok":
             # the real verifier errbacks when a share's header cannot be read at all (precondition -> AssertionError)
@@ -357,7 +357,7 @@ def history(ctx, i, jobs, layout=None):
         # --- check and repair
         verify = r.random() < 0.6
         node = C.fresh_node(g, cap)
-        out = g.run(lambda: node.check_and_repair(Monitor(), verify=verify), outcome=True, timeout=30)
+        out = g.run(lambda: node.check_and_repair(Monitor(), verify=verify), outcome=True, timeout=120)
         after = disk_state(g, cap)
         case_r = dict(case, repair_verify=verify)
         for key, raw in before.items():
@@ -405,7 +405,7 @@ def history(ctx, i, jobs, layout=None):
             for s in g.find_shares(cap):
                 if (s.server, s.shnum) in before:
                     g.delete_share(s)
-            status, err, chunks = C.read_through(g, C.fresh_node(g, cap), 0, None, timeout=10)
+            status, err, chunks = C.read_through(g, C.fresh_node(g, cap), 0, None, timeout=90)
             if status != "ok" or b"".join(chunks) != data:
                 ctx.oracle_fail("cannot-read-from-repaired-shares-alone", "with only the %d shares written by repair left, download gives %s" % (
                     len(new), err or status if status != "ok" else "wrong bytes"), case=case_r)
@@ -436,7 +436,7 @@ def field_sweep(ctx, i, jobs):
     seed = r.getrandbits(30)
     name = "S%d" % i
     base = {"i": i, "sweep": True, "k": k, "n": n, "size": size, "max_segment_size": mss, "seed": seed}
-    with G.Grid(num_servers=n, k=k, n=n, happy=1, max_segment_size=mss, seed=seed, timeout=30) as g:
+    with G.Grid(num_servers=n, k=k, n=n, happy=1, max_segment_size=mss, seed=seed, timeout=180) as g:
         cap, shares, raws0, gen = C.upload_file(g, data, conv=b"c45s")
         if single and gen.nseg != 1:
             ctx.mismatch("sweep-not-single-segment", "expected a one-segment file, got %d segments" % gen.nseg, case=base, correspondence="verifier-verdict-vs-model")
@@ -466,7 +466,7 @@ def field_sweep(ctx, i, jobs):
             kind = label.split(":")[0]
             ok_expected = share_valid(view, gen, s.shnum)
             node = C.fresh_node(g, cap)
-            out = g.run(lambda: node.check(Monitor(), verify=True), outcome=True, timeout=20)
+            out = g.run(lambda: node.check(Monitor(), verify=True), outcome=True, timeout=90)
             if out.status != "ok":
                 if view.get("header_ok"):
                     ctx.mismatch("verify-failed-unexpectedly", "check(verify=True) ended with %s although every share header is readable" % (out.error or out.status),
@@ -511,7 +511,7 @@ def large_segment_repair(ctx, i):
     via_verifycap = r.random() < 0.5
     verify = r.random() < 0.5
     case = {"i": i, "bigseg": True, "k": k, "n": n, "size": size, "max_segment_size": mss, "seed": seed, "via_verify_cap": via_verifycap, "repair_verify": verify}
-    with G.Grid(num_servers=n + 1, k=k, n=n, happy=1, max_segment_size=mss, seed=seed, timeout=120) as g:
+    with G.Grid(num_servers=n + 1, k=k, n=n, happy=1, max_segment_size=mss, seed=seed, timeout=240) as g:
         cap = g.run(g.upload(data, convergence=b"c45L"))
         shares = g.find_shares(cap)
         orig = {s.shnum: C.split_container(g.read_share(s))[1] for s in shares}
@@ -592,7 +592,7 @@ def lease_checks(ctx, i):
     nservers = r.choice([n, n, n + 1, max(2, n // 2)])
     seed = r.getrandbits(30)
     case = {"i": i, "lease": True, "k": k, "n": n, "size": size, "servers": nservers, "seed": seed}
-    with G.Grid(num_clients=2, num_servers=nservers, k=k, n=n, happy=1, max_segment_size=mss, seed=seed, timeout=30) as g:
+    with G.Grid(num_clients=2, num_servers=nservers, k=k, n=n, happy=1, max_segment_size=mss, seed=seed, timeout=180) as g:
         cap = g.run(g.upload(data, convergence=b"c45l"))
         shares = g.find_shares(cap)
         ndel = r.choice([0, 0, 0, 1, 2])
@@ -614,7 +614,7 @@ def lease_checks(ctx, i):
         order = [(c, v, a) for c in (1, 0) for v in (False, True) for a in (True, False)]
         for (client, verify, add_lease) in order:
             node = g.client(client).nodemaker._create_immutable(uri.from_string(cap))
-            out = g.run(lambda: node.check(Monitor(), verify=verify, add_lease=add_lease), outcome=True, timeout=20)
+            out = g.run(lambda: node.check(Monitor(), verify=verify, add_lease=add_lease), outcome=True, timeout=90)
             if out.status != "ok":
                 ctx.oracle_fail("check-with-add-lease-failed" if add_lease else "check-without-verify-failed",
                                 "check(verify=%s, add_lease=%s) from client %d ended with %s" % (verify, add_lease, client, out.error or out.status), case=case)
@@ -633,7 +633,7 @@ def lease_checks(ctx, i):
                                 case=dict(case, client=client, verify=verify))
         # check_and_repair with add_lease: no repair of a healthy file, and nothing on disk changes then
         node = g.client(1).nodemaker._create_immutable(uri.from_string(cap))
-        out = g.run(lambda: node.check_and_repair(Monitor(), verify=r.random() < 0.5, add_lease=True), outcome=True, timeout=30)
+        out = g.run(lambda: node.check_and_repair(Monitor(), verify=r.random() < 0.5, add_lease=True), outcome=True, timeout=120)
         outcome = out.error or out.status
         if out.status == "ok":
             crr = out.value
@@ -665,7 +665,7 @@ def read_fault_checks(ctx, i):
     nservers = r.choice([n, n, n + 1, max(2, n // 2)])
     seed = r.getrandbits(30)
     case = {"i": i, "readfault": True, "k": k, "n": n, "size": size, "max_segment_size": mss, "servers": nservers, "seed": seed}
-    with G.Grid(num_servers=nservers, k=k, n=n, happy=1, max_segment_size=mss, seed=seed, timeout=30) as g:
+    with G.Grid(num_servers=nservers, k=k, n=n, happy=1, max_segment_size=mss, seed=seed, timeout=180) as g:
         cap = g.run(g.upload(data, convergence=b"c45r"))
         shares = g.find_shares(cap)
         nseg = C.div_ceil(size, C.div_ceil(min(size, mss), k) * k)
@@ -688,7 +688,7 @@ def read_fault_checks(ctx, i):
             mark = len(g.sched.trace)
             before = disk_state(g, cap)
             node = C.fresh_node(g, cap)
-            out = g.run(lambda: run(node), outcome=True, timeout=30)
+            out = g.run(lambda: run(node), outcome=True, timeout=120)
             failed = fired(mark) & set(before)
             # a failed read belongs to the verification only if it happened before any repair traffic; the repairer
             # reads through the downloader, whose failures do not concern the check results: judge the pre-repair results
@@ -775,7 +775,7 @@ def inconsistent_ueb(ctx, i, jobs):
     label, edit, consistent = UEB_EDITS[i % len(UEB_EDITS)]
     name = "U%d" % i
     case = {"i": i, "k": k, "n": n, "size": size, "max_segment_size": mss, "ueb_edit": label}
-    with G.Grid(num_servers=n, k=k, n=n, happy=1, max_segment_size=mss, seed=i, timeout=30) as g:
+    with G.Grid(num_servers=n, k=k, n=n, happy=1, max_segment_size=mss, seed=i, timeout=180) as g:
         cap, shares, raws0, gen = C.upload_file(g, data, conv=b"c45u")
         d = dict(gen.ueb)
         edit(d)
@@ -787,7 +787,7 @@ def inconsistent_ueb(ctx, i, jobs):
             g.write_share(s, C.join_container(head, newp, leases))
         cap2 = uri.CHKFileURI(gen.u.key, C.ueb_hash(new_ueb), k, n, size).to_string()
         node = C.fresh_node(g, cap2)
-        out = g.run(lambda: node.check(Monitor(), verify=True), outcome=True, timeout=20)
+        out = g.run(lambda: node.check(Monitor(), verify=True), outcome=True, timeout=90)
         if out.status == "ok":
             per, agg = results_of(g, out.value)
             good = sorted(sh for (_s, sh), v in per.items() if v == "good")
